@@ -188,6 +188,11 @@ impl Party {
     }
 }
 
+/// Key packages live 100 years from the fake clock T0: wherever the library falls back to the wall
+/// clock (e.g. the commit inside `branch` / `ReinitClient::commit`) they are still valid.
+pub const KEY_PACKAGE_LIFETIME: u64 = 100 * 365 * 86400;
+
+#[allow(clippy::too_many_arguments)]
 pub fn build_client(
     crypto: VCrypto,
     idp: VIdentity,
@@ -199,7 +204,24 @@ pub fn build_client(
     signer: SignatureSecretKey,
     suite: u16,
 ) -> VClient {
+    build_client_with_lifetime(crypto, idp, gstore, kstore, pstore, rules, identity, signer, suite, KEY_PACKAGE_LIFETIME)
+}
+
+#[allow(clippy::too_many_arguments)]
+pub fn build_client_with_lifetime(
+    crypto: VCrypto,
+    idp: VIdentity,
+    gstore: VGroupStore,
+    kstore: VKeyPkgStore,
+    pstore: VPskStore,
+    rules: DefaultMlsRules,
+    identity: SigningIdentity,
+    signer: SignatureSecretKey,
+    suite: u16,
+    lifetime: u64,
+) -> VClient {
     Client::builder()
+        .key_package_lifetime(std::time::Duration::from_secs(lifetime))
         .key_package_repo(kstore)
         .psk_store(pstore)
         .group_state_storage(gstore)
